@@ -109,7 +109,7 @@ func MatchCBOR(it *cborref.Item, e Exp) string {
 			return "expected text string, got " + it.String()
 		}
 		return ""
-	case "anynum":
+	case "anynum", "ftext":
 		if it.Kind != cborref.Uint && it.Kind != cborref.Nint && it.Kind != cborref.Float {
 			return "expected a number, got " + it.String()
 		}
